@@ -10,7 +10,7 @@
     hands to the implementation, the term it was built from, and evaluates the
     term with Go's crypto/sha1, crypto/sha256 (never Coq).  Two terms are equal
     iff the byte strings are, unless SHA-1/SHA-256 collide on these inputs. *)
-From CSS Require Import Lib.Base Lib.Cases Model.Comb Model.PCR0Search.
+From CSS Require Import Lib.Base Lib.Cases Model.Comb Model.PCR0Search Model.PCR0Tool.
 
 Inductive term : Type :=
 | Atom (i : Z)
@@ -35,22 +35,15 @@ Definition MD (tail reg : Z) : tmeas := mkMeas (DataH tail reg) (Some (tail, reg
 (** a PCR0_DATA measurement whose recorded digest is something else *)
 Definition MX (d : term) (tail reg : Z) : tmeas := mkMeas d (Some (tail, reg)).
 
-(** entries of the tpm.CommandLog handed to ReproduceExpectedPCR0 *)
-Inductive cmd : Type :=
-| KInit (loc : Z)                      (* *tpm.CommandInit *)
-| KExt (pcr alg : Z) (m : tmeas)       (* *tpm.CommandExtend *)
-| KLog.                                (* *tpm.CommandEventLogAdd *)
+(** entries of the tpm.CommandLog handed to ReproduceExpectedPCR0: the command
+    type of Model/PCR0Tool.v on free terms *)
+Definition cmd : Type := lcmd term.
+Notation KInit := (@LInit term).       (* *tpm.CommandInit *)
+Notation KExt := (@LExt term).         (* *tpm.CommandExtend *)
+Notation KLog := (@LLog term).         (* *tpm.CommandEventLogAdd *)
 
-(** [filteredMeasurements]: CommandExtend on PCR0 in the requested bank; with
-    the position of every kept entry in the command log *)
-Fixpoint filter_log (alg : Z) (i : nat) (l : list cmd) : list (nat * tmeas) :=
-  match l with
-  | [] => []
-  | KExt p a m :: t =>
-      if (p =? 0) && (a =? alg) then (i, m) :: filter_log alg (S i) t
-      else filter_log alg (S i) t
-  | _ :: t => filter_log alg (S i) t
-  end.
+(** [filteredMeasurements] (Model/PCR0Tool.v) *)
+Definition filter_log : Z -> nat -> list cmd -> list (nat * tmeas) := PCR0Tool.filter_log term.
 
 (** what the call returned *)
 Inductive obsres : Type :=
@@ -62,9 +55,15 @@ Inductive obsres : Type :=
 | RHang                                 (* no answer within the harness timeout *)
 | RPanic.
 
+(** what pcr0tool's printReproducePCR0Result said when it was handed the same
+    command log, the requested value and the result that was returned *)
+Inductive tool_obs : Type :=
+| TNot                                  (* not run (no result) *)
+| TSaid (v : tverdict).
+
 Inductive case : Type :=
-(* ReproduceExpectedPCR0 under GOMAXPROCS = cf *)
-| CRun (cf : Z) (st : settings) (alg : Z) (cmds : list cmd) (target : term) (r : obsres)
+(* ReproduceExpectedPCR0 under GOMAXPROCS = cf; then printReproducePCR0Result on the result *)
+| CRun (cf : Z) (st : settings) (alg : Z) (cmds : list cmd) (target : term) (r : obsres) (tv : tool_obs)
 (* linearSearch.Process(limit) under GOMAXPROCS = cf with a predicate that
    rejects everything: per goroutine (ordered by first value, idle ones last)
    the register values offered to check(), starting from register [reg] *)
@@ -74,7 +73,10 @@ Inductive case : Type :=
    (buffer, context) pair reached check(), ordered by the first candidate
    (number of flipped bits, then the sorted bit list), a summary of the registers
    offered with that pair: how many, the first, the last, their sum mod 2^64 *)
-| CComb (limit cf reg : Z) (offered : list (Z * Z * Z * Z)).
+| CComb (limit cf reg : Z) (offered : list (Z * Z * Z * Z))
+(* the same for small distance limits, element by element: per context every register
+   offered, in order *)
+| CCombFull (limit cf reg : Z) (offered : list (list Z)).
 
 Fixpoint index_of (x : nat) (l : list nat) (i : nat) : option nat :=
   match l with
@@ -125,9 +127,25 @@ Definition summary_eqb (a b : Z * Z * Z * Z) : bool :=
   let '(n', f', l', s') := b in
   (n =? n') && (f =? f') && (l =? l') && (s =? s').
 
+Definition tverdict_eqb (a b : tverdict) : bool :=
+  match a, b with
+  | TVOk, TVOk | TVMismatch, TVMismatch | TVSilent, TVSilent | TVPanic, TVPanic => true
+  | _, _ => false
+  end.
+
+(** the tool's verdict on the returned result is the one of [tool_verdict] *)
+Definition check_tool (alg : Z) (cmds : list cmd) (target : term) (r : obsres) (tv : tool_obs) : bool :=
+  match tv, r with
+  | TNot, _ => true
+  | TSaid v, RSome loc _ dis sw =>
+      tverdict_eqb (tool_verdict term term_eqb Init Ext alg cmds target loc dis sw) v
+  | TSaid _, _ => false
+  end.
+
 Definition check (c : case) : bool :=
   match c with
-  | CRun cf st alg cmds target r =>
+  | CRun cf st alg cmds target r tv =>
+      check_tool alg cmds target r tv &&
       let f := filter_log alg 0 cmds in
       let outs := model_outcomes cf st (map snd f) target in
       let o :=
@@ -152,6 +170,8 @@ Definition check (c : case) : bool :=
   | CComb limit cf reg offered =>
       list_eqb summary_eqb offered
         (map ctx_summary (comb_offered cf reg (comb_maxd (mkSettings 0 0 true limit 0))))
+  | CCombFull limit cf reg offered =>
+      list_eqb zlist_eqb offered (comb_offered cf reg (comb_maxd (mkSettings 0 0 true limit 0)))
   end.
 
 Definition mismatches := mismatches_by check.
